@@ -174,6 +174,8 @@ class Canon:
         if isinstance(v, MsgVal):
             return ("msg", self.c(v.astuple()))
         if isinstance(v, Opaque):
+            if "$model" in v.attrs:
+                return v.attrs["$model"].canon(self)
             if v.spec.get("token"):
                 return self.name(v, v.spec["token"])
             return ("opaque", v.name)
@@ -192,9 +194,21 @@ class Canon:
                 return ("obj-cycle", v.cls.name)
             if v.cls.issubclass(BUILTIN_CLASSES["BaseException"]) and v.label:
                 return self.name(v, "exc:" + v.cls.name)
+            if getattr(self, "share", False) and not v.cls.issubclass(BUILTIN_CLASSES["BaseException"]):
+                # whole-configuration keys: an object is described at its first occurrence and referred to by name afterwards
+                if id(v) in self.ren:
+                    return self.ren[id(v)]
+                nm = self.name(v, "obj:" + v.cls.name)
+                ex = getattr(self, "obj_exclude", ())
+                flt = getattr(self, "attr_filters", {})
+                return (nm, tuple((k, self.c(flt[k](x) if k in flt else x)) for k, x in sorted(v.attrs.items())
+                                  if not k.startswith("$") and k not in ex))
             self.stack.add(id(v))
             try:
-                return ("obj", v.cls.name, tuple((k, self.c(x)) for k, x in sorted(v.attrs.items()) if not k.startswith("$")))
+                ex = getattr(self, "obj_exclude", ())
+                flt = getattr(self, "attr_filters", {})
+                return ("obj", v.cls.name, tuple((k, self.c(flt[k](x) if k in flt else x)) for k, x in sorted(v.attrs.items())
+                                                 if not k.startswith("$") and k not in ex))
             finally:
                 self.stack.discard(id(v))
         if isinstance(v, Closure):
@@ -215,6 +229,22 @@ class Canon:
             return ("iter", v.i, len(v.items) if hasattr(v, "items") else len(v.seq))
         if callable(v) and getattr(v, "_pyvc_native", False):
             return ("native", getattr(v, "_canon_label", getattr(v, "__name__", "?")))
+        if type(v).__name__ == "OpaqueMethod":
+            return ("om", v.name, self.c(v.obj))
+        if type(v).__name__ == "method" and hasattr(v, "__self__"):       # bound method of a host-side model object
+            return ("hostbm", v.__func__.__qualname__, self.c(v.__self__))
+        if type(v).__name__ == "function":
+            cells = []
+            for cell in (v.__closure__ or ()):
+                try:
+                    x = cell.cell_contents
+                except ValueError:
+                    continue
+                if hasattr(x, "canon") or isinstance(x, (Obj, Opaque, GenObj, AbsGen, str, int, bool, type(None))):
+                    cells.append(self.c(x))
+            return ("hostfn", getattr(v, "_canon_label", v.__qualname__), tuple(cells))
+        if type(v).__name__ == "object":
+            return self.name(v, "sentinel")
         return ("host", type(v).__name__, repr(v))
 
     def frame(self, fr, exclude=()):
@@ -232,6 +262,9 @@ class Canon:
                 val = flt(self, val)
             items.append((k, self.c(val)))
         ctx = tuple(self.ctx(x) for x in getattr(fr, "ctx", []))
+        dl = getattr(fr, "delegate", None)
+        if dl is not None:
+            ctx = ctx + (("delegate", self.c(dl)),)
         return ("frame", fr.closure.qualname if fr.closure else None, loc, tuple(items), ctx)
 
     def ctx(self, x):
